@@ -30,7 +30,7 @@ func Parse(query string) (Query, error) {
 	}
 
 	trimmed = strings.TrimSuffix(trimmed, ";")
-	lower := strings.ToLower(trimmed)
+	lower := lowerASCII(trimmed)
 	fields := strings.Fields(lower)
 	if len(fields) == 0 {
 		return Query{}, fmt.Errorf("empty query")
@@ -48,6 +48,33 @@ func Parse(query string) (Query, error) {
 	default:
 		return Query{Type: QueryUnknown}, fmt.Errorf("unsupported statement")
 	}
+}
+
+// lowerASCII lower-cases the ASCII letters of s and leaves every other byte
+// untouched, so len(lowerASCII(s)) == len(s) and a byte offset found in the
+// result addresses the same position in s. strings.ToLower does not have this
+// property: it changes the encoded length of some letters (U+023A grows from 2
+// to 3 bytes, U+212A shrinks from 3 to 1) and rewrites invalid UTF-8, so
+// offsets computed on its result must not be used to slice the original text.
+// SQL keywords are ASCII, which is all the parser needs to fold.
+func lowerASCII(s string) string {
+	hasUpper := false
+	for i := 0; i < len(s); i++ {
+		if c := s[i]; 'A' <= c && c <= 'Z' {
+			hasUpper = true
+			break
+		}
+	}
+	if !hasUpper {
+		return s
+	}
+	b := []byte(s)
+	for i, c := range b {
+		if 'A' <= c && c <= 'Z' {
+			b[i] = c + ('a' - 'A')
+		}
+	}
+	return string(b)
 }
 
 func parseShow(fields []string) (Query, error) {
@@ -69,7 +96,7 @@ func parseDescribe(fields []string) (Query, error) {
 
 func parseExplain(raw string) (Query, error) {
 	trimmed := strings.TrimSpace(raw)
-	lower := strings.ToLower(trimmed)
+	lower := lowerASCII(trimmed)
 	if !strings.HasPrefix(lower, "explain") {
 		return Query{Type: QueryUnknown}, fmt.Errorf("invalid explain")
 	}
